@@ -340,7 +340,53 @@ func (e *Engine) loadContracts() error {
 			return err
 		}
 	}
+	if err := e.validateKeys(); err != nil {
+		return err
+	}
 	return e.loadPrelude(filepath.Join(e.verif, "spec", "prelude.smt2"))
+}
+
+// validateKeys: every contract must name an existing function or method of a loaded package (a key that binds to
+// nothing would silently never be used).
+func (e *Engine) validateKeys() error {
+	known := map[string]bool{}
+	packages.Visit(e.pkgs, nil, func(p *Pkg) {
+		if p.Types == nil {
+			return
+		}
+		sc := p.Types.Scope()
+		for _, n := range sc.Names() {
+			switch o := sc.Lookup(n).(type) {
+			case *types.Func:
+				known[funcKey(o)] = true
+			case *types.TypeName:
+				if named, ok := o.Type().(*types.Named); ok {
+					for i := 0; i < named.NumMethods(); i++ {
+						known[funcKey(named.Method(i))] = true
+					}
+					if it, ok := named.Underlying().(*types.Interface); ok {
+						for i := 0; i < it.NumMethods(); i++ {
+							known[p.Types.Name()+"."+o.Name()+"."+it.Method(i).Name()] = true
+							known[funcKey(it.Method(i))] = true
+						}
+					}
+				}
+			}
+		}
+	})
+	var bad []string
+	for _, k := range sortedKeys(e.contracts) {
+		if strings.Contains(k, "$") {
+			continue // contract for a call through a function value
+		}
+		if !known[k] {
+			bad = append(bad, k)
+		}
+	}
+	if len(bad) > 0 {
+		return fmt.Errorf("contract-binding: no function or method named %s", strings.Join(bad, ", "))
+	}
+	return nil
 }
 
 type preludeBlock struct {
@@ -560,7 +606,16 @@ func (e *Engine) onSend(c *Ctx, s *State, x *ast.SendStmt, ch, v Value) {
 	c.note("a send on call.ResultChan() counts as one delivery to that call (ghost X.delivered); blocking is not modelled")
 }
 func (e *Engine) onGo(c *Ctx, s *State, x *ast.GoStmt)                    {}
-func (e *Engine) onClose(c *Ctx, s *State, x *ast.CallExpr, ch Value)     {}
+// onClose: ghost X.closed[ch] = 1; closing a nil or already closed channel panics.
+func (e *Engine) onClose(c *Ctx, s *State, x *ast.CallExpr, ch Value) {
+	chv := asInt(ch)
+	m := c.heapGet(s, "X.closed", sA1)
+	if c.checkPanics {
+		c.oblige(s, "close", c.text(x), x.Pos(), and(not(eq(chv, "0")), eq(sel(m, chv), "0")), c.panicTags)
+	}
+	c.heapSet(s, "X.closed", sA1, store(m, chv, "1"))
+	c.frameWrites["X.closed"] = true
+}
 // onLock: ghost count of mutexes held by the executing goroutine (pairing of Lock/Unlock on every path; "emission under a
 // lock" obligations).
 func (e *Engine) onLock(c *Ctx, s *State, x *ast.CallExpr, op string, recv Value) {
@@ -854,6 +909,12 @@ func (c *Ctx) atClauses(s *State, label string, pos token.Pos) {
 			g := c.cevalBool(a.Expr, s, nil, pos)
 			c.oblige(s, "assert@"+strings.ReplaceAll(label, " ", ""), a.Text, pos, g, a.Tags)
 			s.assume(g)
+		case "assume-shared":
+			// an invariant of state shared with other goroutines (established and preserved by the operations on it, each under
+			// its own contract); assumed here, never proved here, and listed among the assumptions
+			g := c.cevalBool(a.Expr, s, nil, pos)
+			s.assume(g)
+			c.note("ASSUMED shared-state invariant at " + label + " in " + c.con.Key + ": " + a.Text)
 		case "ghost":
 			// ghost name == expr | ghost name[i] == expr | ghost name[i][j] == expr   (assignment to ghost state)
 			be, ok := a.Expr.(*ast.BinaryExpr)
@@ -929,8 +990,21 @@ func (c *Ctx) frameCheck(pos token.Pos) {
 	for _, m := range k.Modifies {
 		if strings.HasPrefix(m, "contents(") || strings.HasPrefix(m, "object(") {
 			name := m[strings.Index(m, "(")+1 : len(m)-1]
+			var t types.Type
 			if v := c.lookupLocal(name, c.decl.Body.Lbrace+1); v != nil {
-				switch u := v.Type().Underlying().(type) {
+				t = v.Type()
+			} else if ex, err := parseCExpr(name); err == nil {
+				func() {
+					defer func() { recover() }()
+					c.dry++
+					defer func() { c.dry-- }()
+					env := c.ownEnv(c.entry.clone(), c.decl.Body.Lbrace+1)
+					_, t = env.eval(ex)
+				}()
+			}
+			if t != nil {
+				// (approximation: the frame check accepts writes to any object / array of that type)
+				switch u := t.Underlying().(type) {
 				case *types.Slice:
 					k.Modifies = append(k.Modifies, memKey(u.Elem()))
 				case *types.Pointer:
